@@ -17,7 +17,7 @@ WHAT TO PRODUCE
 1. A small change (a few lines, in the library's source under {wt}/ndcube, not in tests) that makes the property false. It must look like a plausible developer mistake or "optimisation" (off-by-one, wrong axis order, stale state, a condition that is subtly too narrow/too wide, two sites that each look fine alone...). It must NOT be exposed by ordinary, everyday use at once: it should need something specific to manifest — an unusual but valid input (e.g. a particular combination of dimensionality / negative index / ragged lengths / axis order / more than two members), a multi-step sequence of operations, or a particular configuration. Variant hint for diversity: you are variant "{variant}" — if "a", prefer an arithmetic/indexing slip; if "b", prefer a state/aliasing/ordering or a condition-coverage slip in a different function than the most obvious one.
 2. The existing test-suite must still pass with your change: run
    cd {wt} && PYTHONPATH={wt} /venv/bin/python -m pytest -q -p no:cacheprovider --timeout=900 --continue-on-collection-errors ndcube 2>&1 | tail -5
-   and compare with the same command on the unchanged tree (git stash / git diff to toggle): the set of passing tests must not shrink (the run takes under a minute; some tests/collections already fail on the unchanged tree in this environment; that is expected — only regressions matter).
+   and compare with the same command on the unchanged tree (toggle your change with `git diff -- ndcube > /tmp/<your-id>.diff; git apply -R /tmp/<your-id>.diff` and `git apply /tmp/<your-id>.diff`; do NOT use `git stash`: the stash is shared between all worktrees of this repository and other people are working in sibling worktrees): the set of passing tests must not shrink (the run takes under a minute; some tests/collections already fail on the unchanged tree in this environment; that is expected — only regressions matter).
 3. A demonstration script {wt}/demo_{pid}.py (plain Python, no pytest needed) that exits 0 and prints PASS on the unchanged tree and exits 1 and prints FAIL (with a short explanation of what went wrong) with your change applied. It should check the property directly on a concrete input (compare against numpy / the source cube's own WCS etc.).
 4. Save your change as a patch:  cd {wt} && git diff -- ndcube > {wt}/patch.diff   (the demo script must not be in the patch).
 5. Final answer: a short report with (a) the patch, (b) what specific input/sequence is needed for the bug to manifest and why ordinary use would not expose it, (c) the exact commands you ran and their outcomes (tests before/after, demo before/after).
